@@ -123,6 +123,18 @@ let gen_eval (fn : string) (args : string list) : string =
     let spec = unbr spec in
     let fields = if spec = "" then [] else List.map fspec_of_string (String.split_on_char ' ' spec) in
     (match size_method_opens fields with Some n -> string_of_int (int_of_n n) | None -> "panic")
+  | "GENBR", [ t; spec ] ->
+    let spec = unbr spec in
+    let fields = if spec = "" then [] else List.map fspec_of_string (String.split_on_char ' ' spec) in
+    let t = (match t with
+        | "has" -> THas | "clear" -> TClear | "get" -> TGet | "set" -> TSet | "mutable" -> TMutable | "newfield" -> TNewField
+        | "range" -> TRange | "whichoneof" -> TWhichOneof | "marshal" -> TMarshal | "unmarshal" -> TUnmarshal
+        | s -> failwith ("template " ^ s)) in
+    List.iter (fun ((fk, sh), o) ->
+        match field_toks t fk sh (o <> None) with
+        | Some l -> law "templates_total2" (balanced l)
+        | None -> law "templates_total2_defined" false) fields;
+    (match method_opens t fields with Some n -> string_of_int (int_of_n n) | None -> "panic")
   | "GENDEPIDX", [ spec ] ->
     let f = dfile_of_string spec in
     let t = gen_tables f in
